@@ -2,7 +2,7 @@
    E = sm4_encrypt under sm4_set_encrypt_key (table-driven form), D = the same function under
    sm4_set_decrypt_key. *)
 From GmVerif Require Import Base.ListX Base.Bytes Cipher.BitsX Cipher.SM4 Gen.Sm4Tables Cipher.SM4Tab
-  Cipher.SM4Proofs Cipher.Modes Cipher.SM4Modes Cipher.ModesProofs.
+  Cipher.SM4Proofs Cipher.Modes Cipher.SM4Modes Cipher.ModesProofs Cipher.XtsProofs.
 From Coq Require Import FunctionalExtensionality.
 Local Open Scope nat_scope.
 
@@ -301,3 +301,19 @@ Section SM4Misc.
       + intros st blk Hb. unfold cstep. cbn [snd]. rewrite xor_bytes_length, Hb. unfold E. rewrite (implE_len key). reflexivity.
   Qed.
 End SM4Misc.
+
+(* ---- XTS: what the library computes = the index-form Spec with multiplication by x ---- *)
+Theorem sm4_xts_eq_spec key1 key2 tweak m : 16 <= length m ->
+  xts_encrypt_raw (implE key1) (implE key2) xts_mul2 tweak m =
+    xts_enc_spec (implE key1) (implE key2) xts_mul2_spec tweak m /\
+  xts_decrypt_raw (implD key1) (implE key2) xts_mul2 tweak m =
+    xts_dec_spec (implD key1) (implE key2) xts_mul2_spec tweak m.
+Proof.
+  intros Hm.
+  assert (Ha : forall T, t16 T -> xts_mul2 T = xts_mul2_spec T) by (intros T [L O]; apply xts_mul2_eq_spec; assumption).
+  assert (Hp : forall T, t16 (xts_mul2 T)) by (intros T; split; [apply xts_mul2_len | apply xts_mul2_ok]).
+  assert (Ht : t16 (implE key2 tweak)) by (split; [apply implE_len | apply implE_ok]).
+  split.
+  - rewrite (xts_encrypt_raw_eq_spec (implE key1) (implD key1) (implE key2) xts_mul2 tweak m Hm). apply xts_enc_spec_ext; assumption.
+  - rewrite (xts_decrypt_raw_eq_spec (implE key1) (implD key1) (implE key2) xts_mul2 tweak m Hm). apply xts_dec_spec_ext; assumption.
+Qed.
